@@ -568,10 +568,21 @@ func (m *Machine) convert(v Value, from, to types.Type) Value {
 			panic(abortf("string(symbolic int)"))
 		}
 		if isFloatType(to) {
+			if b, ok := to.Underlying().(*types.Basic); ok && b.Kind() == types.Float64 && x.sort == SInt {
+				return FloatVal{t: m.float64Of(x)}
+			}
 			return OpaqueVal{typ: to, tag: "float"}
 		}
 		if isBoolType(to) {
 			return x
+		}
+	case FloatVal:
+		if isFloatType(to) {
+			return x
+		}
+		if isIntType(to) {
+			bits, signed := typeBits(to)
+			return tWrap(x.t, bits, signed) // integer-valued: truncation is the identity
 		}
 	case StrVal:
 		if isStringType(to) {
